@@ -8,7 +8,7 @@ import props.C02 as C02
 PID = 'C17'
 PROPERTY_FILE = 'Properties/C17.v'
 # generated model parts (translate/) this property's model / proofs really depend on
-GEN_DEPS = ['OpsImpl', 'QuantityImpl']
+GEN_DEPS = ['OpsImpl', 'QuantityImpl', 'StateInventory']
 MODEL_TARGETS = R.MODEL_TARGETS
 PROOF_TARGETS = ['Proofs/GenOpsEq.vo', 'Proofs/C15Proofs.vo']
 COQ_HEADER = R.COQ_HEADER
